@@ -87,7 +87,7 @@ func (r *CorreOTSetupSender) Round1(msg *CorreOTSetupReceiveRound1Message) (*Cor
 
 	randomOTNonces := r.hash.Fork(&hash.BytesWithDomain{
 		TheDomain: "CorreOT Random OT Nonces",
-		Bytes:     nil,
+		Bytes:     []byte{},
 	}).Digest()
 	for i := 0; i < params.OTParam; i++ {
 		choice := saferith.Choice(bitAt(i, r._Delta[:]))
@@ -211,7 +211,7 @@ func (r *CorreOTSetupReceiver) Round1() *CorreOTSetupReceiveRound1Message {
 
 	randomOTNonces := r.hash.Fork(&hash.BytesWithDomain{
 		TheDomain: "CorreOT Random OT Nonces",
-		Bytes:     nil,
+		Bytes:     []byte{},
 	}).Digest()
 	for i := 0; i < params.OTParam; i++ {
 		nonce := make([]byte, 32)
@@ -305,7 +305,7 @@ func CorreOTSend(ctxHash *hash.Hash, setup *CorreOTSendSetup, batchSize int, msg
 
 	// Doing a keyed hash for our PRG is faster than cloning a forked hash many times
 	prgKey := make([]byte, 32)
-	_, _ = ctxHash.Fork(&hash.BytesWithDomain{TheDomain: "CorreOT PRG Key", Bytes: nil}).Digest().Read(prgKey)
+	_, _ = ctxHash.Fork(&hash.BytesWithDomain{TheDomain: "CorreOT PRG Key", Bytes: []byte{}}).Digest().Read(prgKey)
 	prg, _ := blake3.NewKeyed(prgKey)
 
 	var Q [params.OTParam][]byte
@@ -355,7 +355,7 @@ func CorreOTReceive(ctxHash *hash.Hash, setup *CorreOTReceiveSetup, choices []by
 
 	// Doing a keyed hash for our PRG is faster than cloning a forked hash many times
 	prgKey := make([]byte, 32)
-	_, _ = ctxHash.Fork(&hash.BytesWithDomain{TheDomain: "CorreOT PRG Key", Bytes: nil}).Digest().Read(prgKey)
+	_, _ = ctxHash.Fork(&hash.BytesWithDomain{TheDomain: "CorreOT PRG Key", Bytes: []byte{}}).Digest().Read(prgKey)
 	prg, _ := blake3.NewKeyed(prgKey)
 
 	outMsg := new(CorreOTReceiveMessage)
